@@ -1,5 +1,5 @@
 """C15 Matching a binary equals matching its `objdump -d -M att` text."""
-import glob, os, stat
+import glob, os, stat, subprocess
 import gen, gen_rules, impl, model, objfuzz
 
 CONSTS = ()
@@ -27,7 +27,7 @@ def shim_dir(ctx):
 def run(ctx, factor):
     g, rep = ctx.g, ctx.report
     rep.rule = ("ELF objects assembled from random code bytes with 1-3 executable sections (and the binaries under "
-                "/repo/tests/binary in the thorough tier; an object whose .text is empty and one without any code: objdump prints its banner only) x sections lists (absent, one, several, a name not in the file): "
+                "/repo/tests/binary in the thorough tier; an object whose .text is empty and one without any code: objdump prints its banner only; a PE/COFF object and an ar archive) x sections lists (absent, one, several, a name not in the file): "
                 "binary route on the real code vs assembly route on the harness's own `objdump -d -M att [-j s]*` output: "
                 "same stream, same verdict and addresses for a random rule, same error class when objdump fails; the "
                 "argument vector the real code passes to objdump (logged by a PATH shim) vs the model's objdumpArgs")
@@ -51,9 +51,18 @@ def run(ctx, factor):
         dpath = os.path.join(ctx.scratch.dir, "dataonly.S")
         with open(dpath, "w") as fh:
             fh.write(".data\n.byte 1,2,3,4\n.section .rodata\n.byte 9,9\n")
-        import subprocess
         subprocess.run(["as", "-o", dpath[:-2] + ".o", dpath], check=True, capture_output=True)
         objs.append((dpath[:-2] + ".o", [".text", ".data"]))
+        # containers other than ELF that objdump disassembles just as well: a PE/COFF object and a static library
+        base = objfuzz.assemble(ctx.scratch, [(".text", objfuzz.random_bytes(g, 30)), (".text.hot", objfuzz.random_bytes(g, 20))], name="forcoff")
+        coff = os.path.join(ctx.scratch.dir, "forcoff.obj")
+        lib = os.path.join(ctx.scratch.dir, "libfor.a")
+        if subprocess.run(["objcopy", "-O", "pe-x86-64", base, coff], capture_output=True).returncode == 0:
+            objs.append((coff, [".text", ".text.hot"]))
+        if os.path.exists(lib):
+            os.remove(lib)
+        if subprocess.run(["ar", "rcs", lib, base], capture_output=True).returncode == 0:
+            objs.append((lib, [".text", ".text.hot"]))
         if ctx.tier == "thorough":
             for f in sorted(glob.glob(os.path.join(impl.REPO, "tests", "binary", "*"))):
                 if os.path.getsize(f) < 50000:       # AesCore, md5sum, smc, smc_eko (the larger ones take minutes each)
